@@ -12,7 +12,7 @@
 (* is reported through the known-finding mechanism.                            *)
 EXTENDS Locate, MC_Universe
 
-CONSTANT Which
+CONSTANTS Which, Tier
 
 \* ---- tensor-product meshes over coordinate sequences (already doubled) ----
 TId2(nx, a, b) == (b - 1) * nx + a
@@ -107,7 +107,14 @@ Universe == IF Which = "main" THEN MainUniverse ELSE LineCompUniverse
 USeq == SetToSeq(Universe)
 ASSUME \A j \in DOMAIN USeq : MeshInScope(USeq[j].m)
 
-BatchesOf(u) == {<<q>> : q \in u.Q} \cup {<<q, a>> : q \in u.Q, a \in u.A} \cup {<<a, q, q>> : q \in u.Q, a \in u.A}
+\* quick tier: a deterministic thinning of the query points (every anchor is kept); thorough: everything
+Hash(q) == SumSeq([c \in DOMAIN q |-> (2 * c + 3) * q[c]])
+Keep(q, r) == Tier = "thorough" \/ Hash(q) % r = 0
+BatchesOf(u) ==
+  LET r == IF Len(CHOOSE q \in u.Q : TRUE) = 3 THEN 4 ELSE 2 IN
+  {<<q>> : q \in {x \in u.Q : Keep(x, r)} \cup u.A}
+  \cup {<<q, a>> : q \in {x \in u.Q : Keep(x, 8)}, a \in u.A}
+  \cup {<<a, q, q>> : q \in {x \in u.Q : Keep(x, 8)}, a \in u.A}
 
 \* export for replay on the real finders (spec -> code)
 ExportOf(u) == [kind |-> u.m.kind, p |-> u.m.p, t |-> u.m.t, batches |-> SetToSeq(BatchesOf(u))]
